@@ -1,5 +1,323 @@
 import Ecal.Drivers.Util
+import Ecal.Model.Pool
+/-!
+Driver of C09: **trace validator**. A case line is `<payload> | <trace>` where the trace was
+recorded from the real pool by the hook handler of `go/cmd/harness/c09sched.go` (format: see
+`go/cmd/harness/c09.go`). The trace is replayed on the per-worker LTS `Ecal.Pool.step repaired`:
+every record is mapped to the model event(s) it witnesses, every event must be enabled, and every
+value a hook observed under a lock (queue size, kill counter, worker / idle counts of the
+snapshots) must equal the model's. The result line gives the property-level monitors the model
+expects for the state at the end of the trace (same syntax as the harness' monitors).
+
+Partial observation, resolved here (not in the model):
+* a hook record is written *before* the following operation on the condition variable: after
+  `bw` (before `Wait`) / `rt` (before the deferred `Unlock`) the release of `L` is performed lazily,
+  at the latest when another thread's record needs `L` or the worker's own next record comes;
+* an unlocked `Broadcast` (`bc`, `.B`) that is recorded while a worker sits between `bw` and the
+  enqueue inside `Wait` may or may not have reached that worker: both resolutions are tried;
+* `Signal` wakes some waiter: first-in-first-out is tried first, then the others.
+The trace is valid iff *some* resolution replays to the end.
+-/
 namespace Ecal.Drv.C09
-/-- model driver of property C09 (stub: not implemented yet) -/
-def run (_args : List String) : IO Unit := Ecal.Drv.lineLoop fun _ => "unimplemented"
+open Ecal.Drv Ecal.Pool
+
+structure Rec where
+  thread : String
+  code : String
+  args : List String
+  bc : Bool       -- suffix `.B`: followed by an unlocked broadcast of the same thread
+  rep : Nat
+  deriving Repr
+
+def parseNum (s : String) : Option Int :=
+  if s.startsWith "m" then (s.drop 1).toString.toNat?.map (fun n => - (n : Int))
+  else s.toNat?.map (fun n => (n : Int))
+
+def parseRec (t : String) : Option Rec :=
+  let (body, rep) := match t.splitOn "*" with
+    | [b, r] => (b, r.toNat?.getD 1)
+    | _ => (t, 1)
+  match body.splitOn "." with
+  | th :: code :: args =>
+    let bc := args.getLast? == some "B"
+    let args := if bc then args.dropLast else args
+    some ⟨th, code, args, bc, rep⟩
+  | _ => none
+
+structure R where
+  s : State
+  lazy : Option Nat := none            -- worker whose release of L is pending (after bw / rt)
+  fifo : List Nat := []                -- waiters in arrival order
+  swcRead : List (String × Int × Int) := []
+  wsOk : List (String × Bool) := []    -- per thread: exit guard ∧ soundness at its last snapshot
+  waSeen : Bool := false
+  waOk : Bool := true
+  jaSeen : Bool := false
+  jaOk : Bool := true
+  lastSet : Option Int := none
+  joined : Bool := false
+  wakes : Nat := 0
+  pops : Nat := 0
+  earlyBc : Nat := 0                   -- unlocked broadcasts already performed whose record is still to come
+
+/-- errors + a budget of alternatives that survives failed branches -/
+abbrev M := ExceptT String (StateM Nat)
+
+def ev (e : Event) (r : R) : M R :=
+  match step repaired r.s e with
+  | some s' => pure { r with s := s' }
+  | none => throw s!"event {reprStr e} is not enabled in the model"
+
+def expect (c : Bool) (msg : String) : M Unit := if c then pure () else throw msg
+
+def pcOf (r : R) (i : Nat) : PC := r.s.pcs.getD i .gone
+
+/-- perform the pending release of L -/
+def flush (r : R) : M R :=
+  match r.lazy with
+  | none => pure r
+  | some i =>
+    match pcOf r i with
+    | .willWait => do let r ← ev (.wWait i) r; pure { r with lazy := none, fifo := r.fifo ++ [i] }
+    | .unlocking => do let r ← ev (.wUnlock i) r; pure { r with lazy := none }
+    | _ => pure { r with lazy := none }
+
+def flushOwn (r : R) (i : Nat) : M R := if r.lazy == some i then flush r else pure r
+
+def argNat (args : List String) (k : Nat) : M Int :=
+  match (args[k]?).bind parseNum with
+  | some n => pure n
+  | none => throw s!"bad numeric argument {k} in {args}"
+
+def argTask (args : List String) (k : Nat) : M (Option Nat) :=
+  match args[k]? with
+  | some a => if a.startsWith "t" then
+      match (a.drop 1).toString.toNat? with
+      | some n => pure (some n)
+      | none => throw "bad task"
+    else pure none
+  | none => throw "missing task argument"
+
+def workerIdx (th : String) : Option Nat :=
+  if th.startsWith "w" then (th.drop 1).toString.toNat?.bind (fun n => if n = 0 then none else some (n - 1)) else none
+
+def setAssoc {α} (l : List (String × α)) (k : String) (v : α) : List (String × α) :=
+  (k, v) :: l.filter (·.1 != k)
+
+def bcastAll (r : R) : M R := do
+  let r ← ev .bcast r
+  pure { r with fifo := [] }
+
+/-- one record without choice points; `none` for the records that have alternatives -/
+def stepRec (c : Rec) (r : R) : M R := do
+  match workerIdx c.thread with
+  | some i =>
+    -- `st`/`hd` of a fresh worker may be recorded before the `su` of the SetWorkerCount creating it
+    if i ≥ r.s.pcs.length && (c.code == "st" || c.code == "hd") then return r
+    expect (i < r.s.pcs.length) s!"unknown worker {c.thread}"
+    match c.code with
+    | "st" => expect (pcOf r i == .head) "st: worker not at loop head"; pure r
+    | "hd" => expect (pcOf r i == .head) "hd: worker not at loop head"; pure r
+    | "nk" =>
+      let k ← argNat c.args 0
+      expect (k == r.s.kill) s!"nk: workerKill observed {k}, model {r.s.kill}"
+      ev (.killPass i) r
+    | "kx" =>
+      let k ← argNat c.args 0
+      let r ← ev (.killExit i) r
+      expect (k == r.s.kill) s!"kx: workerKill observed {k}, model {r.s.kill}"
+      pure r
+    | "ke" => expect (pcOf r i == .exiting) "ke: worker not exiting"; pure r
+    | "pp" =>
+      let t ← argTask c.args 0
+      let q ← argNat c.args 1
+      let r ← match t with
+        | some t => ev (.pop i t) { r with pops := r.pops + 1 }
+        | none => ev (.popNone i) r
+      expect (q == (r.s.queue.length : Int)) s!"pp: queue size observed {q}, model {r.s.queue.length}"
+      pure r
+    | "em" => pure r
+    | "ir" => ev (.regIdle i) r
+    | "tb" =>
+      match ← argTask c.args 0 with
+      | some t => expect (pcOf r i == .run t) s!"tb: worker does not hold task {t}"; pure r
+      | none => pure r
+    | "te" =>
+      match ← argTask c.args 0 with
+      | some t => expect (pcOf r i == .run t) s!"te: worker does not hold task {t}"; ev (.finish i) r
+      | none => flushOwn r i
+    | "il" => do let r ← flush r; ev (.wLock i) r
+    | "ip" =>
+      let p ← argNat c.args 0
+      expect (p == (r.s.queue.length : Int)) s!"ip: pending observed {p}, model {r.s.queue.length}"
+      ev (.readQ i) r
+    | "ik" =>
+      let k ← argNat c.args 0
+      expect (k == r.s.kill) s!"ik: workerKill observed {k}, model {r.s.kill}"
+      ev (.readKill i) r
+    | "bw" => expect (pcOf r i == .willWait) "bw: model does not wait here"; pure { r with lazy := some i }
+    | "aw" =>
+      let r ← flush r
+      expect (pcOf r i == .woken) "aw: worker returned from Wait but nothing woke it in the model"
+      let r ← ev (.wRelock i) r
+      pure { r with wakes := r.wakes + 1 }
+    | "rt" => expect (pcOf r i == .unlocking) "rt: model is not at the end of idleTask.Run"; pure { r with lazy := some i }
+    | "iu" => do let r ← flushOwn r i; ev (.unregIdle i) r
+    | "ex" => ev (.exit i) r
+    | x => throw s!"unknown worker record {x}"
+  | none =>
+    match c.code with
+    | "ap" =>
+      let t ← argTask c.args 0
+      let q ← argNat c.args 1
+      let r ← ev (.aPush (t.getD 0)) r
+      expect (q == (r.s.queue.length : Int)) s!"ap: queue size observed {q}, model {r.s.queue.length}"
+      pure r
+    | "au" => pure r
+    | "ad" => pure r
+    | "SC" => do let k ← argNat c.args 0; pure { r with lastSet := some k, joined := false }
+    | "SR" => pure r
+    | "sr" =>
+      let w ← argNat c.args 0
+      let k ← argNat c.args 1
+      expect (w == (r.s.workerCount : Int)) s!"sr: worker count observed {w}, model {r.s.workerCount}"
+      pure { r with swcRead := setAssoc r.swcRead c.thread (w, if k < 0 then 0 else k) }
+    | "su" =>
+      let n ← argNat c.args 0
+      expect ((r.s.workerCount : Int) ≤ n) "su: fewer workers than before"
+      let r ← ev (.swcUp (n.toNat - r.s.workerCount)) r
+      pure r
+    | "sd" =>
+      let k ← argNat c.args 0
+      expect (0 < k) "sd: workerKill not positive"
+      match r.swcRead.lookup c.thread with
+      | some (w, cnt) => expect (k == w - cnt) s!"sd: workerKill {k} is not workerCount - count = {w - cnt}"
+      | none => throw "sd without sr"
+      ev (.swcDown (k.toNat - 1)) r
+    | "sb" => do
+      let r ← flush r
+      let r ← ev .swcLock r
+      let r ← ev .swcBcast r
+      pure { r with fifo := [] }
+    | "sp" =>
+      let w ← argNat c.args 0
+      expect (w == (r.s.workerCount : Int)) s!"sp: worker count observed {w}, model {r.s.workerCount}"
+      pure r
+    | "WC" => pure r
+    | "ws" =>
+      let w ← argNat c.args 0
+      let i ← argNat c.args 1
+      let t ← argNat c.args 2
+      expect (w == (r.s.workerCount : Int) && i == (r.s.idleCount : Int) && t == (r.s.queue.length : Int))
+        s!"ws: snapshot observed {w}/{i}/{t}, model {r.s.workerCount}/{r.s.idleCount}/{r.s.queue.length}"
+      let sound := !waitAllGuard r.s || r.s.workerCount == 0 || (r.s.queue.isEmpty && r.s.running.isEmpty)
+      pure { r with wsOk := setAssoc r.wsOk c.thread (waitAllGuard r.s && sound) }
+    | "WR" =>
+      pure { r with waSeen := true, waOk := r.waOk && (r.wsOk.lookup c.thread == some true) }
+    | "JC" => pure { r with joined := true }
+    | "jk" => ev .joinKill r
+    | "js" =>
+      let w ← argNat c.args 0
+      let t ← argNat c.args 1
+      expect (w == (r.s.workerCount : Int) && t == (r.s.queue.length : Int))
+        s!"js: snapshot observed {w}/{t}, model {r.s.workerCount}/{r.s.queue.length}"
+      let sound := !joinAllGuard r.s || (r.s.running.isEmpty && r.s.done.length == r.s.added.length)
+      pure { r with wsOk := setAssoc r.wsOk c.thread (joinAllGuard r.s && sound) }
+    | "JR" =>
+      pure { r with jaSeen := true, jaOk := r.jaOk && (r.wsOk.lookup c.thread == some true) }
+    | "bc" => pure r
+    | x => throw s!"unknown caller record {x}"
+
+def errPos (m : String) : Nat :=
+  if m.startsWith "@" then (((m.drop 1).toString.splitOn " ").head!).toNat?.getD 0 else 0
+
+/-- first alternative that replays to the end; otherwise the failure that got furthest -/
+def firstOk {α} : List (Unit → M α) → M α
+  | [] => throw "no alternative"
+  | [f] => f ()
+  | f :: fs => tryCatch (f ()) fun e => do
+    let b ← get
+    if b = 0 then throw e
+    set (b - 1)
+    tryCatch (firstOk fs) fun e2 => throw (if errPos e2 > errPos e then e2 else e)
+
+/-- the unlocked broadcast after a record: if a worker sits between `bw` and the enqueue, try
+    "missed" first, then "reached" -/
+def bcastAlts (r : R) : List (Unit → M R) :=
+  match r.lazy with
+  | some i =>
+    if pcOf r i == .willWait then
+      [fun _ => bcastAll r, fun _ => do let r ← flush r; bcastAll r]
+    else [fun _ => bcastAll r]
+  | none => [fun _ => bcastAll r]
+
+/-- Signal of AddTask: L is taken (pending releases happen first), then one waiter is woken -/
+def signalAlts (r : R) : M (List (Unit → M R)) := do
+  let r ← flush r
+  let r ← ev .aLock r
+  if r.fifo.isEmpty then pure [fun _ => ev (.aSignal none) r]
+  else pure (r.fifo.map fun j => fun _ => do
+    let r ← ev (.aSignal (some j)) r
+    pure { r with fifo := r.fifo.erase j })
+
+def replay : List Rec → Nat → R → M R
+  | [], _, r => flush r
+  | c :: rest, k, r =>
+    let wrap (e : M R) : M R :=
+      tryCatch e fun m => throw (if m.startsWith "@" then m else s!"@{k} {c.thread}.{c.code}: {m}")
+    if c.code == "as" && (workerIdx c.thread).isNone then
+      wrap (do
+        let alts ← signalAlts r
+        firstOk (alts.map fun f => fun u => do let r' ← f u; replay rest (k + 1) r'))
+    else if c.code == "bc" || c.bc then
+      wrap (do
+        let r1 ← stepRec c r
+        -- the broadcast itself may have been performed already (its effect was seen before its record)
+        let consumed : List (Unit → M R) :=
+          if r1.earlyBc > 0 then [fun _ => pure { r1 with earlyBc := r1.earlyBc - 1 }] else []
+        -- repetitions of a polling record: the first one decides, the others are idempotent
+        firstOk ((consumed ++ bcastAlts r1).map fun f => fun u => do
+          let r2 ← f u
+          let r3 ← if c.rep > 1 then do let r3 ← stepRec c r2; bcastAll r3 else pure r2
+          replay rest (k + 1) r3))
+    else if c.code == "aw" && (match workerIdx c.thread with
+        | some i => pcOf r i != .woken && rest.any (fun d => d.code == "bc" || d.bc)
+        | none => false) then
+      -- a worker returns from Wait although nothing woke it yet: an unlocked Broadcast whose record
+      -- (written after the call) is still to come
+      wrap (firstOk ((bcastAlts r).reverse.map fun f => fun u => do
+          let r1 ← f u
+          let r2 ← stepRec c { r1 with earlyBc := r1.earlyBc + 1 }
+          replay rest (k + 1) r2))
+    else do
+      let r' ← wrap (stepRec c r)
+      replay rest (k + 1) r'
+
+def stuckIn (s : State) : Bool :=
+  !s.queue.isEmpty && 0 < s.live && (internalEvents s).all fun e => (step repaired s e).isNone
+
+def monitors (r : R) : String :=
+  let s := r.s
+  let exec := if s.done.eraseDups.length == s.done.length then "ok" else "bad:model"
+  let wa := if !r.waSeen then "na" else if r.waOk then "ok" else "bad"
+  let ja := if !r.jaSeen then "na" else if r.jaOk then "ok" else "bad"
+  let rs := match r.lastSet with
+    | some k => if r.joined then "na" else if (s.workerCount : Int) == k then "ok" else "bad"
+    | none => "na"
+  s!"added={s.added.length} done={s.done.length} q={s.queue.length} w={s.workerCount} i={s.idleCount} " ++
+  s!"stuck={if stuckIn s then 1 else 0} exec={exec} wa={wa} ja={ja} rs={rs}"
+
+def runCase (line : String) : String :=
+  match line.splitOn " | " with
+  | [_payload, trace] =>
+    match (trace.splitOn ",").mapM parseRec with
+    | none => "bad-trace"
+    | some recs =>
+      match ((replay recs 0 { s := init }).run.run 3000).1 with
+      | .ok r =>
+        monitors r ++ s!"\tvalid=1\tevents={recs.length}" ++ (if r.wakes > 0 && r.pops > 0 then "\tnt=1" else "")
+      | .error m => "INVALID " ++ m
+  | _ => "bad-case-line"
+
+def run (_args : List String) : IO Unit := lineLoop runCase
 end Ecal.Drv.C09
